@@ -87,13 +87,7 @@ def _decorator(prog: dict, c: int, role: str, owner: int, params: List[str], che
 
 
 def _snap_decorator(prog: dict, s: int, owner: int, params: List[str]) -> str:
-    snp = prog["snp"][s - 1]
-    kw = ", ".join("{0}={0}".format(p) for p in params)
-    sig = ", ".join(params)
-    owner_async = prog["fn"][owner - 1]["async"]
-    if snp["rv"] == "corofn" or (snp["rv"] == "coro" and owner_async):
-        return "@icontract.snapshot(cap_{}, name='s{}')".format(s, s)
-    return "@icontract.snapshot(lambda {}: H.cap({}, {}, {}), name='s{}')".format(sig, s, owner, kw, s)
+    return "@icontract.snapshot(cap_{}, name='s{}')".format(s, s)
 
 
 def _snap_def(prog: dict, s: int, owner: int, params: List[str], indent: str) -> List[str]:
@@ -107,7 +101,8 @@ def _snap_def(prog: dict, s: int, owner: int, params: List[str], indent: str) ->
     if snp["rv"] == "coro" and owner_async:
         return ["{}def cap_{}({}):".format(indent, s, sig),
                 "{}    return H.cap_async({}, {}, {})".format(indent, s, owner, kw)]
-    return []
+    return ["{}def cap_{}({}):".format(indent, s, sig),
+            "{}    return H.cap({}, {}, {})".format(indent, s, owner, kw)]
 
 
 def _fn_source(prog: dict, f: int, indent: str, groups: List[List[int]], with_post: bool, name: str) -> List[str]:
